@@ -3,6 +3,7 @@ package main
 import (
 	"context"
 	"encoding/json"
+	"errors"
 	"fmt"
 	"io"
 	"net/http"
@@ -35,9 +36,23 @@ type c06Cfg struct {
 	S   []string `json:"service"`
 	R   []string `json:"route"`
 	JSR bool     `json:"jsr311,omitempty"`
+	// Custom: an application-provided RouteSelector (delegating to CurlyRouter) that fails requests
+	// of kind "selerr" with a plain error value instead of a restful.ServiceError
+	Custom bool `json:"custom_selector,omitempty"`
 }
 
-func (c c06Cfg) String() string { return fmt.Sprintf("c%v s%v r%v jsr=%v", c.C, c.S, c.R, c.JSR) }
+func (c c06Cfg) String() string {
+	return fmt.Sprintf("c%v s%v r%v jsr=%v custom-selector=%v", c.C, c.S, c.R, c.JSR, c.Custom)
+}
+
+type c06Selector struct{ inner restful.CurlyRouter }
+
+func (s c06Selector) SelectRoute(wss []*restful.WebService, r *http.Request) (*restful.WebService, *restful.Route, error) {
+	if r.Header.Get("X-SelErr") != "" {
+		return nil, nil, errors.New("selector says no")
+	}
+	return s.inner.SelectRoute(wss, r)
+}
 
 type ctxKey struct{}
 
@@ -137,6 +152,9 @@ func c06Build(cfg c06Cfg) *c06World {
 	if cfg.JSR {
 		c.Router(restful.RouterJSR311{})
 	}
+	if cfg.Custom {
+		c.Router(c06Selector{})
+	}
 	// panics of the "boom" request kind are recovered quietly
 	c.DoNotRecover(false)
 	c.RecoverHandler(func(p interface{}, w http.ResponseWriter) { w.WriteHeader(500) })
@@ -194,6 +212,9 @@ func c06Req(kind, rid string) h.Req {
 		q.Segs, q.Method = []string{"one", "r"}, "POST"
 	case "plain":
 		q.Segs = []string{"plain", "x"}
+	case "selerr": // routing fails inside a custom selector, with an error that is not a ServiceError
+		q.Segs = []string{"one", "r"}
+		q.Hdr = append(q.Hdr, [2]string{"X-SelErr", "1"})
 	}
 	return q
 }
@@ -381,11 +402,20 @@ func checkC06(run *h.Run) {
 		cfgs = append(cfgs, c06Cfgs(3, 1, 1, false)...)
 		cfgs = append(cfgs, c06Cfgs(2, 2, 2, true)...)
 	}
+	// an application-provided RouteSelector (all request kinds, plus the one it fails itself)
+	for _, c := range c06Cfgs(2, 1, 1, false) {
+		c.Custom = true
+		cfgs = append(cfgs, c)
+	}
 	var e1cases int64
 	counts := make([]int64, len(cfgs))
 	h.Parallel(len(cfgs), func(_, i int) {
 		cfg := cfgs[i]
-		for _, kind := range c06Kinds {
+		kinds := c06Kinds
+		if cfg.Custom {
+			kinds = append(append([]string{}, kinds...), "selerr")
+		}
+		for _, kind := range kinds {
 			w := c06Build(cfg)
 			w.do(c06Req(kind, "q"), kind == "plain")
 			got := w.lg.get("q")
@@ -460,7 +490,7 @@ func checkC06(run *h.Run) {
 	run.Cov["evaluations"] = e1cases + seqTrans
 	run.Cov["distinct_nontrivial"] = e1cases + seqStates
 	run.Cov["exhaustive"] = true
-	run.Cov["rule"] = fmt.Sprintf("E1: every assignment of behaviours {pass, stop, replace pair, set attribute, http middleware} to (n_c, n_s, n_r) in {0,1,2}^3 filters (thorough also n_c = 3 and RouterJSR311) x request kinds {route one, route two of another service, 404, 405, HandleWithFilter pattern, route one with a handler that panics (recovered)}; the per-request event log (entries with the view each filter/handler has of pair, attributes, context, writer; handler; exits) must equal the ten-line model's. E2: every sequence of <= %d requests on one container for %d configurations, last request judged the same way. E3 (instrumented): concurrent requests, all schedules within the preemption bound with yields at every filter entry/exit and handler, happens-before race detection. Every case is non-trivial.", depth, len(seqCfgs))
+	run.Cov["rule"] = fmt.Sprintf("E1: every assignment of behaviours {pass, stop, replace pair, set attribute, http middleware} to (n_c, n_s, n_r) in {0,1,2}^3 filters (thorough also n_c = 3 and RouterJSR311) x request kinds {route one, route two of another service, 404, 405, HandleWithFilter pattern, route one with a handler that panics (recovered)}, and the (n_c<=2, n_s<=1, n_r<=1) configurations again behind an application-provided RouteSelector with the extra kind 'selector fails with a plain error'; the per-request event log (entries with the view each filter/handler has of pair, attributes, context, writer; handler; exits) must equal the ten-line model's. E2: every sequence of <= %d requests on one container for %d configurations, last request judged the same way. E3 (instrumented): concurrent requests, all schedules within the preemption bound with yields at every filter entry/exit and handler, happens-before race detection. Every case is non-trivial.", depth, len(seqCfgs))
 	run.Assume = []string{"model c06Model: registration order container, service, route; first stop ends the chain; views follow the nearest upstream replace/attr/middleware"}
 	if f := e3Part["C06"]; f != nil {
 		f(run)
